@@ -39,7 +39,9 @@ def emptyWN (src : Str) (ctx : String) : Node → List Viol
     -- spans inside a word whose source holds a line continuation are offsets into the shortened text (D10)
     let ctx' := if realContGo 0 t || (hasContinuation t && ps.any isSubst) then addCtx ctx "+cont" else ctx
     (if !w.isEmpty then [] else
-      ["word-empty" ++ (if !t.isEmpty && t.all (fun c => c == '\'' || c == '"' || c == '$') then "+quotes-only" else "") ++ ctx]) ++
+      -- (a following line continuation may be inside the span: D31/D32)
+      let tq := (stripContinuations t).reverse.dropWhile (· == '\\') |>.reverse
+      ["word-empty" ++ (if !tq.isEmpty && tq.all (fun c => c == '\'' || c == '"' || c == '$') then "+quotes-only" else "") ++ ctx]) ++
     emptyWL src ctx' ps
   | .commandsubstitution _ c | .processsubstitution _ c => emptyWN src ctx c
   | .list _ ps | .pipeline _ ps | .ifN _ ps | .forN _ ps | .whileN _ ps | .untilN _ ps
